@@ -7,6 +7,7 @@
 -/
 import DdnnfVerif.Proofs.Flatten
 import DdnnfVerif.Proofs.AtomicSame
+import DdnnfVerif.Proofs.Lex
 namespace Ddnnf.C10
 
 /-- the lexer reads back every line the writer emits (and / or without children come back as
@@ -66,5 +67,26 @@ theorem reload_atomic_sets_like_the_original (nodes : List NType) (n : Nat) (h :
     ∃ out, saveReload nodes n = some (n, out) ∧
       atomicSets out n cands A cross [] = atomicSets nodes n cands A cross [] :=
   saveReload_atomicSets nodes n h hu A hA hsat cands hc cross
+
+/-! ### character level: the real lexer (nom combinators) on the writer's bytes (Model/Lex.lean)
+
+`Lex.lexC2d` models `lex_line_c2d` on the characters of a line: the alternatives in the code's order,
+`A 0` / `O 0 0` as prefix tests, `(" " digits)+` number lists, `parse::<usize>` / `parse::<i32>` with their
+ranges (`NodeInRange`: child indices and counts below 2^64, literals in the i32 range — outside it the
+code panics, and so does the model). -/
+
+/-- every node line the writer emits, as characters, lexes back to the node it was written from -/
+theorem every_written_line_lexes_back_at_character_level (nd : NType) (h : Lex.NodeInRange nd) :
+    Lex.lexC2d (Lex.renderTokLine (writeNode nd)) = .ok (.node (normalizeNode nd)) :=
+  Lex.lexC2d_writeNode nd h
+
+/-- the written file, as characters (header test on the trimmed first line, lexer on every node line),
+parses to the header's `n` and the same nodes — exactly what the token-level `parseFile` of the theorems
+above yields -/
+theorem written_file_parses_back_at_character_level (nodes : List NType) (n : Nat)
+    (hr : ∀ nd ∈ nodes, Lex.NodeInRange nd) (hlen : nodes.length < 2 ^ 64) (hn : n < 2 ^ 64) :
+    Lex.parseC2dText ((writeFile nodes n).map Lex.renderTokLine) = some (n, nodes.map normalizeNode) ∧
+    Lex.parseC2dText ((writeFile nodes n).map Lex.renderTokLine) = parseFile (writeFile nodes n) :=
+  ⟨Lex.parseC2dText_writeFile nodes n hr hlen hn, Lex.parseC2dText_eq_parseFile nodes n hr hlen hn⟩
 
 end Ddnnf.C10
